@@ -1,4 +1,5 @@
 from dataclasses import dataclass, field
+from fractions import Fraction
 from typing import (
     AbstractSet,
     Any,
@@ -74,7 +75,10 @@ class MultipleOfConstraint(Constraint):
     mult_of: int
 
     def validate(self, data: Any) -> bool:
-        return not (data % self.mult_of)
+        try:
+            return not (data % self.mult_of)
+        except OverflowError:  # integer too large to be converted to float
+            return not (Fraction(data) % Fraction(self.mult_of))
 
 
 @dataclass
